@@ -206,7 +206,9 @@ def reset_initial_conditions(
     # Reset soil water conditions (if not running off-season)
     if ClockStruct.sim_off_season is False:
         # Reset water content to starting conditions
-        InitCond.th = InitCond.thini
+        # (a copy: the processes update th in place, the configured initial
+        # water content must stay intact for the following seasons)
+        InitCond.th = np.array(InitCond.thini, dtype=float)
         # Reset surface storage
         if (FieldMngt.bunds) and (FieldMngt.z_bund > 0.001):
             # Get initial storage between surface bunds
